@@ -41,8 +41,12 @@ func NewEval(opts CompilerOptions, globals Object, args ...Object) *Eval {
 
 // Run compiles, runs given script and returns last value on stack.
 func (r *Eval) Run(ctx context.Context, script []byte) (Object, *Bytecode, error) {
+	// A script that fails to compile must not leave its modules in the store:
+	// their constants are dropped with the failed compilation.
+	modules := r.moduleStore.clone()
 	bytecode, err := compileScript(script, &r.Opts, &r.moduleStore)
 	if err != nil {
+		r.moduleStore = modules
 		return nil, nil, err
 	}
 
